@@ -160,6 +160,13 @@ def run_cases(ctx, cases, prefix, canary=None, only=None):
                            "unmodelled on a size-dependent path: %s" % str(e)[:200], None, 0.0, "tensor-normal-form")
             else:
                 ctx.generic_skipped = getattr(ctx, "generic_skipped", []) + [(case.name, str(e)[:200])]
+    if canary and str(canary).startswith("generic-"):
+        bearing = [c.name for c in cases if c.canary_spec is not None]
+        skipped = {n for n, _w in getattr(ctx, "generic_skipped", [])}
+        if bearing and all(n in skipped for n in bearing):
+            # the functions carrying the deliberately wrong contract are outside the fragment on this tree: nothing was
+            # decided about them in the main run either (recorded there); the canary says nothing
+            ctx.canary_na = True
     vc.flush(prefix)
     ctx.generic_done = getattr(ctx, "generic_done", []) + done
     for a in sorted(G.ASSUMED):
